@@ -143,6 +143,8 @@ def float_literal(dt, v):
     x = np.dtype(dt).type(v)
     if x != x:
         return None
+    if dt == "float16":                  # stored (and exported) as float32
+        return str(np.float32(x))
     return str(x) if dt == "float32" else repr(float(x))
 
 
@@ -207,8 +209,19 @@ def coq_oframe(r):
 
 
 def candidate_texts(c):
-    """Texts whose float value the model may need: the printed floats and every stored string."""
+    """Texts whose float value the model may need: the printed floats and every stored string; when a bare carriage
+    return breaks the rows, numerals land in other columns, so every numeral of the file as well."""
     out = []
+    strs = [str(v) for p in c["nprops"] + c["eprops"] if p["dtype"] == "str" for v in p["values"]]
+    if any(bare_cr(s) for s in strs + [p["name"] for p in c["nprops"] + c["eprops"]]):
+        out += [str(v) for v in c["ids"]] + [str(i) for i in range(max(len(c["ids"]), len(c["edges"])) + 1)]
+        for p in c["nprops"] + c["eprops"]:
+            if p["dtype"] not in ("str", "bool") and not p["dtype"].startswith("float"):
+                out += [str(int(v)) for v in p["values"]]
+            if p["dtype"] == "bool":
+                out += ["True", "False"]
+        for s in strs:
+            out += re.split(r"[\r\n]", s)
     for p in c["nprops"] + c["eprops"]:
         if p["dtype"].startswith("float"):
             out += [lit for lit in (float_literal(p["dtype"], v) for v in p["values"]) if lit is not None]
@@ -226,7 +239,7 @@ def run_csvtext(c, write_store, listing_order):
     store = MemoryStore()
     write_store(c, store)
     order = listing_order(store, c)
-    d = Path(tempfile.mkdtemp(prefix="c17t-"))
+    d = Path(tempfile.mkdtemp(prefix="c17t.v1-"))      # a dot in the directory name: only the file name loses its suffix
     try:
         o = {"order": order}
         try:
@@ -371,7 +384,7 @@ def same_default(dt, cell, v):
         if tag != "f":
             return False
         got = struct.unpack("<d", struct.pack("<Q", cell[1]))[0]
-        if dt == "float32":
+        if dt in ("float32", "float16"):
             with np.errstate(over="ignore"):
                 return float(np.float32(got)) == x          # the value at the stored precision
         return got == x
@@ -539,6 +552,12 @@ def witness_cases():
     yield g(three, [mk_prop("f", "float64", (3,), [float("-inf"), 1e-320, 2.0**53 + 2], mid)])
     yield g(three, [mk_prop("f", "float64", (3,), [float("nan"), 0.5, 1.0], None)])           # a stored NaN is a missing cell
     yield g(three, [mk_prop("f", "float64", (3,), [1.0, 2.0, 1e16], None), mk_prop("h", "float64", (3,), [1e22, 1e21, 1.5e-7], None)])
+    f16 = lambda x: float(np.float16(x))  # noqa: E731
+    yield g(three, [mk_prop("h", "float16", (3,), [f16(0.1), f16(65504.0), f16(-1.5)], None)])
+    yield g(three, [mk_prop("h", "float16", (3, 2), [f16(0.1), f16(0.5), f16(6e-8), f16(2.0), f16(1 / 3), f16(-0.0)], mid)])
+    # a 2-D property twelve wide: two-digit component suffixes
+    yield g([4, 5], [mk_prop("p", "int64", (2, 12), list(range(100, 124)), [False, True])],
+            edges=[(4, 5)], eprops=[mk_prop("wide", "str", (1, 11), [f"s{i}" for i in range(11)], None)])
     # all-missing columns, empty and single-row graphs
     yield g(three, [mk_prop(dt[0] + "m", dt, (3,), v, [True, True, True])
                     for dt, v in (("int64", [1, 2, 3]), ("float64", [0.5, 1.5, 2.5]), ("bool", [True, False, True]), ("uint64", [2**64 - 1, 1, 2]))])
@@ -592,8 +611,18 @@ def rand_csvtext(rng, int_pool, float_pool):
         return out
 
     nn, ne = rng.randint(0, 4), rng.randint(0, 2)
+    nprops, eprops = props(names[:nn], n), props(names[5:5 + ne], e)
+    for ps in (nprops, eprops):
+        # a bare carriage return shifts cells into other columns; a numeral beyond int64 landing in a mixed column is
+        # outside the reader model (pandas' uint64 retry is order dependent): keep the two apart
+        big = any(v > 2**63 - 1 for v in ids) or any(
+            p["dtype"] not in ("str", "bool") and not p["dtype"].startswith("float") and any(v > 2**63 - 1 for v in p["values"]) for p in ps)
+        if big:
+            for p in ps:
+                if p["dtype"] == "str":
+                    p["values"] = ["k" if bare_cr(v) else v for v in p["values"]]
     return {"kind": "csvtext", "zf": rng.choice([2, 3]), "id_dtype": idt, "ids": ids, "edges": edges,
-            "nprops": props(names[:nn], n), "eprops": props(names[5:5 + ne], e), "block": "csvtext-random"}
+            "nprops": nprops, "eprops": eprops, "block": "csvtext-random"}
 
 
 READ_ALPH = ["a", "1", ",", ",", '"', "\r", "\n", "\n", " ", "5", ".", "e", "-"]
@@ -639,6 +668,6 @@ def read_cases(rng, count):
 def generate(rng, tier, int_pool, float_pool):
     yield {"kind": "consts", "block": "consts"}
     yield from witness_cases()
-    for _ in range(160 if tier == "quick" else 4000):
+    for _ in range(160 if tier == "quick" else 2500):
         yield rand_csvtext(rng, int_pool, float_pool)
-    yield from read_cases(rng, 400 if tier == "quick" else 12000)
+    yield from read_cases(rng, 400 if tier == "quick" else 6000)
